@@ -1,0 +1,38 @@
+//go:build verif
+
+package clusterimpl
+
+// Contracts checked by /verif (contract-based deductive verification).
+// This file is comment-only; it is compiled only with -tags=verif.
+
+// ---- C38: drop ratio arithmetic ---------------------------------------------------
+
+// dropRequestsPerMillion(n, d) = min(floor(n * 10^6 / d), 10^6), computed
+// without wrap-around for every uint32 n and every non-zero uint32 d.
+//@ func dropRequestsPerMillion
+//@   prop C38
+//@   nopanic
+//@   requires denominator != 0
+//@   ensures Z(result) == imin(Z(numerator) * 1000000 / Z(denominator), 1000000)
+//@   ensures result <= 1000000
+
+// gcd never returns 0 for a non-zero second argument, so the divisions in
+// newDropper are defined, and the result divides nothing larger than b.
+//@ func gcd
+//@   prop C38
+//@   nopanic
+//@   requires b != 0
+//@   loop 1 invariant a != 0 || b != 0
+//@   loop 1 invariant Z(a) <= imax(Z(old(a)), Z(old(b))) && Z(b) <= imax(Z(old(a)), Z(old(b)))
+//@   loop 1 decreases Z(b)
+//@   ensures result != 0
+//@   ensures Z(result) <= imax(Z(a), Z(b))
+
+// newDropper: the two WRR weights are computed without division by zero and
+// without uint32 wrap when the configured rate is at most one million (the cap
+// guaranteed by dropRequestsPerMillion).
+//@ func newDropper
+//@   prop C38
+//@   requires c.RequestsPerMillion <= 1000000
+//@   assert at call Add#1 arg1 >= 0 && Z(arg1) <= Z(c.RequestsPerMillion)
+//@   assert at call Add#2 arg1 >= 0 && Z(arg1) <= 1000000
